@@ -75,18 +75,37 @@ fn run_case(case: &C05Case, force_single: bool, obs: &mut Obs) -> Vec<(Vec<Value
 		let mut had_close = false;
 		let mut had_lag = false;
 		let mut handler_registered = false;
+		// odd-but-legal texts for a share of the cases: blanks around the message, and members a reader ignores
+		// (inside `params` next to `subscription`/`result`, and at the top level)
+		let decorate = case.cap % 2 == 0;
 		let flush = |pending: &mut Vec<Value>, mc: &MockClient, had_array: &mut bool| {
 			if pending.is_empty() {
 				return;
 			}
-			if pending.len() == 1 {
-				mc.push_text(pending[0].to_string());
+			if decorate {
+				for (k, m) in pending.iter_mut().enumerate() {
+					if let Some(p) = m.get_mut("params").and_then(|p| p.as_object_mut()) {
+						if p.contains_key("subscription") {
+							p.insert("seq".into(), json!(k));
+						}
+					}
+					if k % 2 == 0 {
+						m["extra"] = json!({"subscription": "nobody"});
+					}
+				}
+			}
+			let text = if pending.len() == 1 {
+				pending[0].to_string()
 			} else {
 				*had_array = true;
-				mc.push_text(Value::Array(pending.clone()).to_string());
-			}
+				Value::Array(pending.clone()).to_string()
+			};
+			mc.push_text(if decorate { format!(" \r\n\t{text}\n ") } else { text });
 			pending.clear();
 		};
+		if decorate {
+			obs.class("server-messages-with-blanks-and-unknown-members");
+		}
 		macro_rules! fail {
 			($sig:expr, $($arg:tt)*) => { obs.fail($sig, format!("{} | case={:?} force_single={}", format!($($arg)*), case, force_single)) };
 		}
